@@ -47,7 +47,7 @@ func deriveEvent(src string, key []byte, h []byte, mainnet bool) Ev {
 				e["addrs"] = out
 			}
 		}
-		if s, err := bscript.NewP2PKHFromAddress(a.AddressString); err == nil {
+		if s, err := freshP2PKHFromAddress(a.AddressString); err == nil {
 			e["fromAddr"] = Ev{"ok": true, "s": ints(*s)}
 		}
 		ok, _ := bscript.ValidateAddress(a.AddressString)
@@ -63,6 +63,20 @@ func deriveEvent(src string, key []byte, h []byte, mainnet bool) Ev {
 	return e
 }
 
+// freshP2PKHFromAddress builds the script, lets the holder of that result edit it in place and append
+// to it, and builds it again: what is reported is the second result (every call must give the script).
+func freshP2PKHFromAddress(addr string) (*bscript.Script, error) {
+	first, err := bscript.NewP2PKHFromAddress(addr)
+	if err != nil {
+		return nil, err
+	}
+	for i := range *first {
+		(*first)[i] ^= 0xff
+	}
+	_ = append(*first, 0xee, 0xee, 0xee)
+	return bscript.NewP2PKHFromAddress(addr)
+}
+
 func acceptEvent(src string, s string) Ev {
 	e := Ev{"ev": "accept", "src": src, "s": ints([]byte(s)), "validate": false, "fromString": Ev{"ok": false, "pkh": []int{}},
 		"fromAddr": Ev{"ok": false, "s": []int{}}, "payTo": false, "changeTo": false}
@@ -73,7 +87,7 @@ func acceptEvent(src string, s string) Ev {
 			pk, _ := hex.DecodeString(a.PublicKeyHash)
 			e["fromString"] = Ev{"ok": true, "pkh": ints(pk)}
 		}
-		if sc, err := bscript.NewP2PKHFromAddress(s); err == nil {
+		if sc, err := freshP2PKHFromAddress(s); err == nil {
 			e["fromAddr"] = Ev{"ok": true, "s": ints(*sc)}
 		}
 		tx := bt.NewTx()
